@@ -43,6 +43,7 @@ type Run struct {
 	Trace   bool
 	Events  []string
 	digest  uint64
+	rdigest uint64
 	Steps   int64
 	Stats   map[string]int64
 	Visits  []Visit // reset by the harness per operation
@@ -70,6 +71,7 @@ func NewRun(d Decider) *Run {
 		Dec:     d,
 		pools:   map[string]*poolState{},
 		digest:  1469598103934665603,
+		rdigest: 1469598103934665603,
 		Stats:   map[string]int64{},
 		inPool:  map[any]int{},
 		lastPut: map[any]string{},
@@ -95,12 +97,33 @@ func (r *Run) mix(s string) {
 // and never reads a clock.
 func (r *Run) Event(s string) {
 	r.mix(s)
+	if !internalEvent(s) {
+		// what a caller can observe (operations, results, collected output, configuration and builder steps): unlike the
+		// pool and scheduler events this part of the log must not depend on what the process did before - a library may
+		// legitimately keep process-wide caches that change which pool calls happen
+		d := r.digest
+		r.digest = r.rdigest
+		r.mix(s)
+		r.rdigest, r.digest = r.digest, d
+	}
 	if r.Trace {
 		r.Events = append(r.Events, s)
 	}
 }
 
+func internalEvent(s string) bool {
+	for _, p := range [...]string{"get ", "put ", "clear ", "switch ", "exit->"} {
+		if len(s) >= len(p) && s[:len(p)] == p {
+			return true
+		}
+	}
+	return false
+}
+
 func (r *Run) Digest() string { return strconv.FormatUint(r.digest, 16) }
+
+// RDigest covers the observable events only.
+func (r *Run) RDigest() string { return strconv.FormatUint(r.rdigest, 16) }
 
 func (r *Run) Count(k string) { r.Stats[k]++ }
 
